@@ -61,7 +61,7 @@ def main(argv):
     if S.get("pdts"):
         init = [p.detach().to(getattr(torch, x)) for p, x in zip(init, S["pdts"])]
     params = [torch.nn.Parameter(p.detach().clone()) for p in init]
-    opt = G.build_optimizer(ds, torch, cfg, params, distributed_config=ddp_config(ds, S["comm"], S["G"], S["communicate_params"]))
+    opt = G.build_optimizer(ds, torch, cfg, params, distributed_config=ddp_config(ds, S["comm"], S.get("G_arg", S["G"]), S["communicate_params"]))
     hist = []
     for t in range(S["T"]):
         state["iter"] = t
